@@ -58,18 +58,29 @@ func zzC14_exif() {
 	zzReached("end")
 }
 
-// HEIF item locations: the 16-bit iloc count sizes a slice capacity
+// HEIF item locations: the 16-bit iloc count (of each of three iloc boxes in one meta box) sizes a slice capacity
 func zzC14_iloc() {
-	b := make([]byte, 0, 120)
+	b := make([]byte, 0, 160)
 	b = append(b, "\x00\x00\x00\x18ftypavif\x00\x00\x00\x00avifmif1"...)
-	b = append(b, 0, 0, 0, 12+8+8+16, 'm', 'e', 't', 'a', 0, 0, 0, 0)
-	b = append(b, 0, 0, 0, 8+8+16, 'i', 'l', 'o', 'c')
-	h := zzBytes("h", 8)
-	zzAssume(h[0] <= 1 && h[4] == 0x44 && h[5] == 0)
-	h[0] = byte(zzConc(uint64(h[0]), 2))
-	h[4], h[5] = 0x44, 0
-	b = append(b, h...)
-	b = append(b, zzBytes("e", 16)...)
+	b = append(b, 0, 0, 0, 12+3*(8+8)+12, 'm', 'e', 't', 'a', 0, 0, 0, 0)
+	for k := 0; k < 3; k++ {
+		last := 0
+		if k == 2 {
+			last = 12
+		}
+		b = append(b, 0, 0, 0, byte(8+8+last), 'i', 'l', 'o', 'c')
+		h := zzBytes([]string{"h0", "h1", "h2"}[k], 8)
+		zzAssume(h[0] <= 1)
+		h[0] = byte(zzConc(uint64(h[0]), 2))
+		h[4], h[5] = 0x44, 0
+		b = append(b, h...)
+	}
+	// entries; every extent count (version 0: bytes 4..5 and 10..11, version 1: bytes 6..7) is kept <= 2: the extent
+	// loop runs count times
+	e := zzBytes("e", 12)
+	zzAssume(e[4] == 0 && e[5] <= 2 && e[6] == 0 && e[7] <= 2 && e[10] == 0 && e[11] <= 2)
+	e[4], e[6], e[10] = 0, 0, 0
+	b = append(b, e...)
 	n0 := zzAllocated()
 	_, _ = Decode(zzReaderOf(b))
 	zzAssert(zzAllocated()-n0 <= 4<<20+16*len(b), "bytes allocated stay within 4 MiB + 16*len(input)")
